@@ -121,6 +121,13 @@ Proof.
   exact (lock_order_sound_prog c18_prog _ _ H).
 Qed.
 
+Lemma c18_full_ok_now : c18_full_ok = true.
+Proof. vm_compute. reflexivity. Qed.
+
+Lemma c18_full_no_deadlock :
+  forall ts c, reach c18_prog_full (init c18_prog_full ts) c -> ~ deadlocked c.
+Proof. exact (lock_order_sound_prog c18_prog_full _ _ c18_full_ok_now). Qed.
+
 Lemma c18_tables_ok_now : c18_tables_ok = true.
 Proof. vm_compute. reflexivity. Qed.
 
